@@ -15,6 +15,7 @@ type famPlan struct {
 	// of frames N; then one run per (cause, k) for k in 1..N (quick: a
 	// stratified sample of EnumQuick points) replays the same seed with the
 	// fault injected at frame k.
+	Batch      int // runs per worker job (0 = default)
 	Enum       bool
 	EnumCauses int
 	EnumQuick  int
@@ -77,6 +78,14 @@ var props = map[string]*propSpec{
 			"non-trivial = the cancellation took effect while the RPC was in flight; distinct = distinct schedule digests",
 		Families:       []famPlan{{Family: "cancel", Weight: 3, Enum: true, EnumCauses: 3, EnumQuick: 10}, {Family: "cancel", Weight: 1}},
 		QuickBudget:    55 * time.Second,
+		ThoroughBudget: 20 * time.Minute,
+	},
+	"C05": {
+		Level: "exploration",
+		Rule: "family flowcore: the flow-control sender and receiver in isolation (verif constructors), window in {1,2,3,7,64,65536}, producer / frame pump / credit pump (single or batched credits) / pausing consumer / canceller goroutines, scheduling points at every atomic operation, lock and channel operation; conservation (sender window + bytes in flight + receiver queue + credit in flight <= window) is checked atomically after every harness step, a stall is legitimate only with the consumer parked on a full window, the window must be fully restored at the end; family flow: 2-12 streams over a whole tunnel with stalled-then-resumed consumers and carrier capacity from one frame; volume runs: 70000 (thorough 200000) one-byte messages on one stream; " +
+			"non-trivial = a sender actually waited on a zero window / a run stalled on full windows or carried multi-chunk messages; distinct = distinct schedule digests",
+		Families:       []famPlan{{Family: "flowcore", Weight: 4}, {Family: "flow", Weight: 3, Batch: 10}, {Family: "flow", Weight: 1, Batch: 1, Param: map[string]int{"volume": 1}}},
+		QuickBudget:    50 * time.Second,
 		ThoroughBudget: 20 * time.Minute,
 	},
 	"C08": {
@@ -173,6 +182,9 @@ func (g *specGen) next(batch int) ([]RunSpec, bool) {
 		return g.enumBatch(f)
 	}
 	n := batch
+	if f.Batch > 0 {
+		n = f.Batch
+	}
 	if f.Race {
 		n = batch / 2
 		if n < 1 {
